@@ -142,3 +142,34 @@ def compile (r : Rule) : Select :=
 def ArityOK (db : DB) (r : Rule) : Prop := ∀ a ∈ r.body, ∀ row ∈ db a.pred, row.length = a.args.length
 
 end Logica.CQ
+
+namespace Logica.CQ
+
+/-! ### aggregating rules: `Q(k1, …, kn, v? Op= e) distinct :- body` compiles to GROUP BY over the same SELECT -/
+
+inductive AggOp
+  | sum | min | max | count
+  deriving Repr, DecidableEq
+
+def aggregate : AggOp → List Val → Val
+  | .sum, vs => vs.foldl (· + ·) 0
+  | .min, [] => 0
+  | .min, v :: vs => vs.foldl min v
+  | .max, [] => 0
+  | .max, v :: vs => vs.foldl max v
+  | .count, vs => vs.eraseDups.length
+
+/-- group rows `keys ++ [value]` by their first `n` columns (first-occurrence order), aggregate the last.
+With `n = 0` and no row SQL answers one row holding null; values here are integers, so that corner is outside
+this model (it is `Agg.agg_empty_null`). -/
+def groupAgg (n : Nat) (op : AggOp) (rows : List Row) : List Row :=
+  let keys := (rows.map (·.take n)).eraseDups
+  keys.map fun k => k ++ [aggregate op ((rows.filter (fun r => r.take n == k)).map (fun r => r.getD n 0))]
+
+/-- `SELECT k1..kn, OP(e) FROM (rules UNION ALL) GROUP BY k1..kn` -/
+def evalGroupBy (db : DB) (n : Nat) (op : AggOp) (qs : List Select) : List Row := groupAgg n op (evalUnion db qs)
+
+/-- the documented meaning: aggregate over all solutions of all rules with equal key values -/
+def denoteDistinct (db : DB) (n : Nat) (op : AggOp) (rs : List Rule) : List Row := groupAgg n op (denoteRules db rs)
+
+end Logica.CQ
